@@ -41,7 +41,7 @@ def sh(cmd, cwd=None, timeout=3600):
 
 
 def clean():
-    sh(["git", "-C", REPO, "checkout", "--", "."])
+    sh(["git", "-C", REPO, "reset", "-q", "--hard"])
     sh(["git", "-C", REPO, "clean", "-fdq", "--", "."])
 
 
@@ -57,6 +57,10 @@ def run(name, tiers=("quick", "thorough")):
         open(demo_dst, "w").write(open(demo_src).read())
         rc0, out0 = sh(meta["demo_cmd"], cwd=REPO, timeout=900)
         rc, out = sh(["git", "-C", REPO, "apply", os.path.join(d, "patch.diff")])
+        if rc != 0:
+            # the tree moved on since the change was written (a later fix touched neighbouring lines): three-way merge
+            rc, out = sh(["git", "-C", REPO, "apply", "--3way", os.path.join(d, "patch.diff")])
+            res["applied_with_3way"] = rc == 0
         if rc != 0:
             res["error"] = "patch does not apply: " + out[-500:]
             return res
